@@ -58,8 +58,26 @@ fn zero_mine_timestamp(v: &mut Value) {
 }
 
 fn run_child(hist_file: &Path, obs_file: &Path, restart: Option<usize>, requests: Option<&Path>) -> Option<Vec<Value>> {
+    run_child_cfg(hist_file, obs_file, restart, requests, false)
+}
+
+/// answers that exist only on a replica that records traces
+fn drop_trace_answers(v: &mut Value) {
+    match v {
+        Value::Object(m) => {
+            let ks: Vec<String> = m.keys().filter(|k| k.to_lowercase().contains("trace")).cloned().collect();
+            for k in ks { m.remove(&k); }
+            for (_, x) in m.iter_mut() { drop_trace_answers(x); }
+        }
+        Value::Array(a) => for x in a { drop_trace_answers(x); },
+        _ => {}
+    }
+}
+
+fn run_child_cfg(hist_file: &Path, obs_file: &Path, restart: Option<usize>, requests: Option<&Path>, traces_off: bool) -> Option<Vec<Value>> {
     let exe = std::env::current_exe().ok()?;
     let mut c = std::process::Command::new(exe);
+    if traces_off { c.env("HX_TRACES_OFF", "1"); } else { c.env_remove("HX_TRACES_OFF"); }
     c.args(["c02-child", "--history", hist_file.to_str()?, "--obs", obs_file.to_str()?]);
     if let Some(r) = restart { c.args(["--restart", &r.to_string()]); }
     if let Some(r) = requests { c.args(["--requests", r.to_str()?]); }
@@ -134,6 +152,24 @@ pub fn run(out: &Path, seed: u64, thorough: bool) -> Result<(), Box<dyn std::err
                 if samples.is_empty() { samples.push(json!({"history_ops": h.iter().map(|o| o.kind()).collect::<Vec<_>>(), "restart_after_op": restart, "queries_per_observation": a.iter().filter_map(|x| x.get("observation")).map(|o| o.as_object().map(|m| m.len()).unwrap_or(0)).max()})); }
             }
             _ => failures.push(json!({"what": "c02: a child process failed", "case": {"history_file": hf.to_str()}})),
+        }
+        // a replica with the same protocol version and network that does not record traces: every answer
+        // except the trace answers themselves must be the same
+        if i % 2 == 0 || i >= n {
+            let a = run_child(&hf, &out.join(format!("c02_obs_{}_a.json", i)), None, None);
+            let c = run_child_cfg(&hf, &out.join(format!("c02_obs_{}_c.json", i)), None, None, true);
+            evaluations += 1;
+            match (a, c) {
+                (Some(a), Some(c)) => {
+                    let (mut a, mut c) = (Value::Array(a), Value::Array(c));
+                    drop_trace_answers(&mut a); drop_trace_answers(&mut c);
+                    *dist.entry("trace_recording_pairs".into()).or_default() += 1;
+                    if let Some(d) = first_diff(&a, &c, String::new()) {
+                        failures.push(json!({"what": format!("c02: a replica that records traces and one that does not (same protocol version, same network, same history) differ outside the trace answers at {}", d), "case": {"history_file": hf.to_str(), "history": h}}));
+                    }
+                }
+                _ => failures.push(json!({"what": "c02: a child process failed (trace-recording pair)", "case": {"history_file": hf.to_str()}})),
+            }
         }
         for op in &h { *dist.entry(format!("op_{}", op.kind())).or_default() += 1; }
     }
